@@ -325,3 +325,13 @@ fn test_chebyshev_modn() {
     let gk = chebyshev_modn(&zn, &g, p - 1);
     assert!(gk != zn.from_int(Uint::from_digit(2)));
 }
+
+/// Verification hooks (only with `--cfg yamaquasi_verif`): the private Lucas ladder (add-only wrapper).
+#[cfg(yamaquasi_verif)]
+pub mod verif_hooks_stage2 {
+    use super::*;
+
+    pub fn vh_chebyshev_modn(zn: &ZmodN, g: &MInt, exp: u64) -> MInt {
+        chebyshev_modn(zn, g, exp)
+    }
+}
